@@ -730,6 +730,7 @@ boxed_ops! {
     boxed_div_rem => { let (q, r) = bx(0).div_rem(&bnz(1)); stb(0, &q); stb(1, &r) };
     boxed_rem => stb(0, &bx(0).rem(&bnz(1)));
     boxed_div_rem_vartime => { let (q, r) = bx(0).div_rem_vartime(&bnz(1)); stb(0, &q); stb(1, &r) };
+    boxed_rem_mixed => stb(0, &crypto_bigint::RemMixed::rem_mixed(bx(0), &bnz(1)));
     boxed_div_rem_limb => { let (q, r) = bx(0).div_rem_limb(NonZero::new(limb(1)).unwrap()); stb(0, &q); stl(1, r) };
     boxed_add_mod => stb(0, &bx(0).add_mod(bx(1), bx(2)));
     boxed_sub_mod => stb(0, &bx(0).sub_mod(bx(1), bx(2)));
@@ -1010,6 +1011,7 @@ pub fn registry() -> Vec<Entry> {
     regb!(v, "boxed.div_rem", 2, boxed_div_rem, [1, 2, 4, 8, 16]);
     regb!(v, "boxed.rem", 2, boxed_rem, [1, 2, 4, 8, 16]);
     regb!(v, "boxed.div_rem_vartime", 2, boxed_div_rem_vartime, [1, 2, 4, 8]);
+    regb!(v, "boxed.rem_mixed", 2, boxed_rem_mixed, [1, 2, 4]);
     regb!(v, "boxed.div_rem_limb", 1, boxed_div_rem_limb, [1, 2, 4, 8]);
     regb!(v, "boxed.add_mod", 3, boxed_add_mod, [1, 2, 4, 8]);
     regb!(v, "boxed.sub_mod", 3, boxed_sub_mod, [1, 2, 4, 8]);
